@@ -104,12 +104,12 @@ func HTTPAlphabet() []Sym {
 		hint(429, HintSmall, false),
 		hint(429, HintLarge, false),
 		st(502, Retryable, false),
-		hint(502, HintSmall, true),
+		hint(502, HintSmall, false),
 		st(503, Retryable, false),
 		hint(503, HintSmall, false),
 		{Name: "503-RetryAfter0", Group: "HTTP 503", Class: Retryable, Status: 503, RetryAfter: "0", Thorough: true},
 		st(504, Retryable, false),
-		hint(504, HintLarge, true),
+		hint(504, HintLarge, false),
 		{Name: "net-temporary", Group: "temporary network error", Class: Retryable, NetErr: 1},
 		{Name: "net-permanent", Group: "permanent network error", Class: NonRetryable, NetErr: 2},
 		st(301, NonRetryable, true), // no Location header: handed to the caller as it is
@@ -157,8 +157,11 @@ func configs(isHTTP, thorough bool) []Config {
 	if !isHTTP {
 		cs = append(cs, Config{Name: "nolimit-headers", Enabled: true, Initial: 5 * time.Second, MaxInterval: 30 * time.Second, Headers: true})
 	}
+	// back-off 1 ns: the requested wait is the server's delay and nothing else, in whatever unit the
+	// client read it -- the one configuration that tells "delay honoured in the wrong unit" (the
+	// recorded Retry-After finding) from "delay not honoured at all"
+	cs = append(cs, Config{Name: "zero-backoff", Enabled: true, Initial: time.Nanosecond, MaxInterval: time.Nanosecond, MaxElapsed: 3600 * time.Second})
 	if thorough {
-		cs = append(cs, Config{Name: "zero-backoff", Enabled: true, Initial: time.Nanosecond, MaxInterval: time.Nanosecond, MaxElapsed: 3600 * time.Second})
 		if isHTTP {
 			cs = append(cs, Config{Name: "disabled-gzip", Gzip: true})
 		}
@@ -1064,6 +1067,11 @@ func (d *driver) judge(sc script, cfg Config, ex expect, rs *runState) (key, msg
 	}
 	for i := 1; i < rs.attempts; i++ {
 		if s := symAt(i); s.Hint > 0 && gap[i] < s.Hint {
+			if asNs := time.Duration(int64(s.Hint / time.Second)); s.HintKind == "Retry-After delta-seconds" && gap[i] < asNs {
+				// shorter even than the delay read as nanoseconds (what the recorded unit defect makes of
+				// the header): the delay did not enter the wait at all
+				return "throttle-wait|Retry-After not honoured in any unit|" + s.Group, fmt.Sprintf("answer %d (%s) asked for a delay of %v, attempt %d followed after a requested wait of %v", i, s.Name, s.Hint, i+1, gap[i])
+			}
 			return "throttle-wait|" + s.HintKind, fmt.Sprintf("answer %d (%s) asked for a delay of %v, attempt %d followed after a requested wait of %v", i, s.Name, s.Hint, i+1, gap[i])
 		}
 	}
